@@ -861,7 +861,7 @@ static void part_b(void) {
 					if (!(cl == CL_STCP || cl == CL_AHTTP || cl == CL_HA2T || (kind == K_AGGR && ver == 2))) continue;
 				}
 				na = ai == 0 ? n0 : dry_len(kind, ver, alg);
-				nbits = (long)(na + 4) * 8;
+				nbits = (long)na * 8;
 				nchunks = (nbits + CHUNK_BITS - 1) / CHUNK_BITS;
 				for (c = 0; c < nchunks; c++) {
 					vbuf base;
@@ -870,7 +870,7 @@ static void part_b(void) {
 					vb_init(&base);
 					if (b_baseline(kind, ver, cl, alg, B_LOGIN, B_KEY, &base, 0)) {
 						long total = (long)B.auth[0].n * 8;
-						if (B.auth[0].n > na + 4) vf_harness_error("authentic response longer (%zu) than the enumeration bound (%zu)", B.auth[0].n, na + 4);
+						if (B.auth[0].n != na) vf_harness_error("authentic response has %zu bytes, the enumeration assumed %zu", B.auth[0].n, na);
 						for (bit = c * CHUNK_BITS; bit < (c + 1) * CHUNK_BITS && bit < total; bit++) { b_deviant(kind, ver, cl, alg, B_LOGIN, B_KEY, M_FLIP, bit, &base); done++; }
 						vf_count("bit_flips", done);
 						if (c == 0) vf_sample("flip: %s v%d via %s, MAC alg %d: bits %ld..%ld of the %zu-byte authentic response, each run to completion; delivered => reference authenticates the sent bytes and content identical", KNAME[kind], ver, CLNAME[cl], alg, c * CHUNK_BITS, c * CHUNK_BITS + done - 1, B.auth[0].n);
@@ -882,7 +882,7 @@ static void part_b(void) {
 
 			/* ---- every truncation, every splice point with another authentic response */
 			for (fam = M_TRUNC; fam <= M_SPLICE; fam += M_SPLICE - M_TRUNC) {
-				nchunks = ((long)n0 + 4 + CHUNK_TRUNC - 1) / CHUNK_TRUNC;
+				nchunks = ((long)n0 + CHUNK_TRUNC - 1) / CHUNK_TRUNC;
 				for (c = 0; c < nchunks; c++) {
 					vbuf base;
 					long len, done = 0;
@@ -892,6 +892,7 @@ static void part_b(void) {
 					vb_init(&base);
 					if (b_baseline(kind, ver, cl, RH_SHA256, B_LOGIN, B_KEY, &base, 0)) {
 						long total = (long)B.auth[0].n;
+						if (B.auth[0].n != n0) vf_harness_error("authentic response has %zu bytes, the enumeration assumed %zu", B.auth[0].n, n0);
 						for (len = c * CHUNK_TRUNC; len < (c + 1) * CHUNK_TRUNC && len < total; len++) { b_deviant(kind, ver, cl, RH_SHA256, B_LOGIN, B_KEY, fam, len, &base); done++; }
 						vf_count(fam == M_TRUNC ? "truncations" : "splices", done);
 					}
